@@ -261,6 +261,3 @@ func (fc *FnCtx) splitModel(ins ssa.Instruction, s Val, sep string, setResult fu
 	setResult([]Val{{t: v, ty: types.NewSlice(tString)}})
 }
 
-func (fc *FnCtx) specialSync(ins ssa.Instruction, callee *ssa.Function, cc *ssa.CallCommon, args []Val, setResult func([]Val)) bool {
-	return false
-}
